@@ -227,6 +227,49 @@ static void sec_legendre(Ctx& c, uint64_t) {
   }
 }
 
+// ================================================================ section: reset (history on ONE object)
+// EllipticFunction::Reset(k2, alpha2[, kp2, alphap2]) must leave the object in exactly the state of a freshly constructed one, whatever
+// it held before: sequences of Reset calls whose consecutive parameter sets collide in one argument but not in its complement (k2 = 1.0
+// exactly with kp2 = 1e-17 then 1e-20: possible only through the 4-argument form), repeat, or alternate between the 2- and 4-argument
+// forms; after every call all complete integrals, the inspectors and a few incomplete integrals / Jacobi functions are compared
+// BIT FOR BIT with a fresh object (added after seeded change C15-r4s1: stale K, E, D kept when only kp2 changed).
+static void sec_reset(Ctx& c, uint64_t) {
+  vh::Rng& r = c.rng;
+  struct PS { double k2, a2, kp2, ap2; bool four; };
+  auto tiny = [&]() { static const double t[] = {0.0, 1e-17, 1e-20, 1e-30, 3e-17, 1e-300}; return t[r.below(6)]; };
+  auto gen = [&](const PS* prev) -> PS {
+    PS p; int k = (int)r.below(8);
+    if (prev && k < 3) { p = *prev; p.four = true;                    // collide with the previous set in k2 and/or alpha2, differ in a complement
+      if (k == 0 || k == 2) { p.k2 = 1; p.kp2 = tiny(); } if (k == 1 || k == 2) { p.a2 = 1; p.ap2 = tiny(); }
+      if (!prev->four) { p.kp2 = k == 1 ? 1 - p.k2 : p.kp2; p.ap2 = k == 0 ? 1 - p.a2 : p.ap2; } return p; }
+    if (prev && k == 3) return *prev;                                  // identical parameters again
+    if (k < 6) { p.four = false; p.k2 = r.coin(0.3) ? LADDER[r.below(NL)] : r.uniform(-4, 1); p.a2 = r.coin(0.3) ? 0.0 : r.coin(0.3) ? LADDER[r.below(NL)] : r.uniform(-4, 1); p.kp2 = 1 - p.k2; p.ap2 = 1 - p.a2; return p; }
+    p.four = true; p.kp2 = r.coin() ? tiny() : r.logu(1e-12, 2); p.k2 = (double)(1 - (q128)p.kp2); p.ap2 = r.coin() ? tiny() : r.logu(1e-12, 2); p.a2 = (double)(1 - (q128)p.ap2); return p;
+  };
+  PS p0 = gen(nullptr);
+  std::unique_ptr<EllipticFunction> L(r.coin(0.3) ? new EllipticFunction() : p0.four ? new EllipticFunction(p0.k2, p0.a2, p0.kp2, p0.ap2) : new EllipticFunction(p0.k2, p0.a2));
+  PS prev = p0; int n = r.range(2, 7); std::string hist; uint64_t h = 107;
+  for (int i = 0; i < n; ++i) {
+    PS p = gen(&prev);
+    if (p.four) L->Reset(p.k2, p.a2, p.kp2, p.ap2); else L->Reset(p.k2, p.a2);
+    EllipticFunction F = p.four ? EllipticFunction(p.k2, p.a2, p.kp2, p.ap2) : EllipticFunction(p.k2, p.a2);
+    char b[160]; std::snprintf(b, sizeof b, "%s(%.17g,%.17g,%.17g,%.17g) ", p.four ? "Reset4" : "Reset2", p.k2, p.a2, p.kp2, p.ap2); if (hist.size() < 1200) hist += b;
+    h = vh::hmix(vh::hmix(vh::hmix(vh::hmix(h, p.k2), p.a2), p.kp2), p.ap2);
+    double phi = r.uniform(-4, 4), x = r.uniform(-3, 3);
+    double sn1, cn1, dn1, sn2, cn2, dn2; L->sncndn(x, sn1, cn1, dn1); F.sncndn(x, sn2, cn2, dn2);
+    const double a[] = {L->K(), L->E(), L->D(), L->KE(), L->Pi(), L->G(), L->H(), L->k2(), L->kp2(), L->alpha2(), L->alphap2(), L->F(phi), L->E(phi), L->D(phi), L->Pi(phi), L->G(phi), L->H(phi), L->Ed(phi * 60), L->am(x), sn1, cn1, dn1};
+    const double f[] = {F.K(), F.E(), F.D(), F.KE(), F.Pi(), F.G(), F.H(), F.k2(), F.kp2(), F.alpha2(), F.alphap2(), F.F(phi), F.E(phi), F.D(phi), F.Pi(phi), F.G(phi), F.H(phi), F.Ed(phi * 60), F.am(x), sn2, cn2, dn2};
+    static const char* nm[] = {"K", "E", "D", "KE", "Pi", "G", "H", "k2", "kp2", "alpha2", "alphap2", "F(phi)", "E(phi)", "D(phi)", "Pi(phi)", "G(phi)", "H(phi)", "Ed", "am", "sn", "cn", "dn"};
+    for (int q = 0; q < 22; ++q)
+      if (!(vh::same_bits(a[q], f[q]) || (std::isnan(a[q]) && std::isnan(f[q])))) {
+        c.viol(std::string("history:C15/elliptic/Reset-differs-from-fresh-object/") + nm[q], "reset-history", J().str("history", hist).i("call", i).str("quantity", nm[q]).f("after_reset", a[q]).f("fresh", f[q]).f("phi", phi).f("x", x));
+        break; }
+    prev = p;
+  }
+  c.count("reset-history/" + std::to_string(n) + "-calls", h); c.event("Reset histories judged against fresh objects (bit exact)");
+  if (c.want_sample("reset-history")) c.sample("reset-history", J().str("history", hist));
+}
+
 // ================================================================ section: identities (Legendre relation, complementary object)
 static void sec_ident(Ctx& c, uint64_t) {
   vh::Rng& r = c.rng;
@@ -482,6 +525,7 @@ static void sec_selftest(Ctx& c, uint64_t idx) {
 int main(int argc, char** argv) {
   std::vector<Section> S;
   S.push_back({"legendre", 5000, 60000, true, sec_legendre});
+  S.push_back({"reset", 3000, 60000, true, sec_reset});
   S.push_back({"ident", 4000, 80000, true, sec_ident});
   S.push_back({"jacobi", 4000, 40000, true, sec_jacobi});
   S.push_back({"einv", 4000, 40000, true, sec_einv});
